@@ -276,7 +276,11 @@ func genSR(r *vproto.Rng, kind string, f frame, lonG, latG float64) string {
 		if z < 1 {
 			z = 1
 		}
-		b = append(b, "+zone="+strconv.Itoa(z))
+		if r.Intn(12) == 0 {
+			b = append(b, "+zone=-"+strconv.Itoa(z)) // the constructors take |zone|
+		} else {
+			b = append(b, "+zone="+strconv.Itoa(z))
+		}
 		if (latG < 0) != (r.Intn(6) == 0) {
 			b = append(b, "+south")
 		}
@@ -296,7 +300,7 @@ func genSR(r *vproto.Rng, kind string, f frame, lonG, latG float64) string {
 			l2 = l1
 		}
 		b = append(b, "+lat_1="+ff(l1, 6))
-		if !(kind == "lcc" && l1 == l2 && r.Bool()) {
+		if !((kind == "lcc" || kind == "eqdc") && l1 == l2 && r.Bool()) { // lcc and eqdc default lat_2 to lat_1
 			b = append(b, "+lat_2="+ff(l2, 6))
 		}
 		b = append(b, "+lat_0="+ff(rd(hemi*r.Float()*70, 6), 6))
@@ -308,7 +312,14 @@ func genSR(r *vproto.Rng, kind string, f frame, lonG, latG float64) string {
 			b = append(b, "+x_0="+ff(rd((r.Float()-0.5)*2e7, 3), 3), "+y_0="+ff(rd((r.Float()-0.5)*2e7, 3), 3))
 		}
 	case "krovak":
-		b = append(b, "+lat_0=49.5", "+lon_0=24.83333333333333")
+		// the constructor's own defaults (lat_0 = 49.5 deg, lon_0 = 24.8333.. deg east of Ferro - 17.6666..) when absent
+		switch r.Intn(4) {
+		case 0:
+		case 1:
+			b = append(b, "+lat_0=49.5")
+		default:
+			b = append(b, "+lat_0=49.5", "+lon_0=24.83333333333333")
+		}
 		if r.Bool() {
 			b = append(b, "+k=0.9999")
 		}
@@ -369,7 +380,7 @@ func twin(r *vproto.Rng, def string, nodatum bool) (string, string) {
 			}
 		case 10: // neighbouring UTM zone
 			if i := find("+zone="); i >= 0 && proj == "utm" {
-				z, _ := strconv.Atoi(toks[i][6:])
+				z, _ := strconv.Atoi(strings.TrimPrefix(toks[i][6:], "-"))
 				if z < 60 {
 					z++
 				} else {
